@@ -1,0 +1,8 @@
+//go:build verif
+
+package random
+
+// VerifGenNonceStr exposes genNonceStr with a caller-supplied random source (verification hook, add-only).
+func VerifGenNonceStr(baseStr string, length int, fn func(int) int) string {
+	return genNonceStr(baseStr, length, fn)
+}
